@@ -11,3 +11,6 @@ import ReuseVerif.Model.Precedence
 import ReuseVerif.Spec.Precedence
 import ReuseVerif.Model.Covered
 import ReuseVerif.Spec.Covered
+import ReuseVerif.Model.Tags
+import ReuseVerif.Model.Copyright
+import ReuseVerif.Model.Extract
